@@ -184,13 +184,14 @@ def _eliminate_returns(stmts: List[ast.stmt], result) -> Tuple[List[ast.stmt], b
 
 class Inliner:
     def __init__(self, repo: Repo, ci: Optional[ClassInfo], sf: Optional[SourceFile] = None, depth: int = 3,
-                 also: Iterable[str] = (), exclude: Iterable[str] = ()):
+                 also: Iterable[str] = (), exclude: Iterable[str] = (), exact: bool = False):
         self.repo = repo
         self.ci = ci
         self.sf = sf or (ci.file if ci else None)
         self.depth = depth
         self.also = set(also)
         self.exclude = set(exclude)
+        self.exact = exact            # the receiver is an instance of exactly `ci`: overriding subclasses do not matter
         self.counter = 0
         self.caller_names: Set[str] = set()
         self.inlined: List[str] = []
@@ -198,6 +199,8 @@ class Inliner:
 
     # ------------------------------------------------------------------ resolution
     def _overridden(self, owner: ClassInfo, name: str) -> bool:
+        if self.exact:
+            return False
         if self._subclasses_cache is None:
             self._subclasses_cache = list(self.repo.all_classes())
         for k in self._subclasses_cache:
@@ -322,8 +325,15 @@ class Inliner:
         tag = f"__h{self.counter}"
         pre, mapping = self._bind(fn, call, bound)
         body = copy.deepcopy(_body(fn))
-        if any(isinstance(n, (ast.Global, ast.Nonlocal)) for st in body for n in ast.walk(st)):
-            raise CannotInline("global/nonlocal")
+        if any(isinstance(n, ast.Nonlocal) for st in body for n in ast.walk(st)):
+            raise CannotInline("nonlocal")
+        if any(isinstance(n, ast.Global) for st in body for n in ast.walk(st)):
+            if bound:
+                raise CannotInline("global in a method")
+            # a module-level helper: its globals are the caller's globals; the declaration itself is dropped
+            gl = {nm for st in body for n in ast.walk(st) if isinstance(n, ast.Global) for nm in n.names}
+            body = [st for st in body if not isinstance(st, ast.Global)]
+            self._globals = getattr(self, "_globals", set()) | gl
         if _has_return_in_loop_or_try(body):
             raise CannotInline("return inside a loop or try")
         # rename helper locals
@@ -333,6 +343,8 @@ class Inliner:
                 if isinstance(n, ast.Name) and isinstance(n.ctx, (ast.Store, ast.Del)):
                     locals_.add(n.id)
         for name in locals_:
+            if name in getattr(self, "_globals", set()):
+                continue
             if name not in mapping and name in self.caller_names:
                 mapping[name] = ast.Name(id=name + tag, ctx=ast.Load())
         self.caller_names |= locals_
@@ -433,6 +445,10 @@ class Inliner:
                     return node
                 fn, bound = r
                 b = _body(fn)
+                if not (len(b) == 1 and isinstance(b[0], ast.Return)) and not _is_generator(fn):
+                    ex = as_expression(fn)
+                    if ex is not None:
+                        b = [ast.Return(value=ex)]
                 if len(b) == 1 and isinstance(b[0], ast.Return) and b[0].value is not None and not _is_generator(fn):
                     try:
                         inl.counter += 1
@@ -515,10 +531,70 @@ def pos(n: ast.AST) -> int:
     return getattr(n, "_seq", getattr(n, "lineno", 0))
 
 
+def as_expression(fn: ast.FunctionDef) -> Optional[ast.expr]:
+    """The value a function returns, as one expression: straight-line local assignments are substituted and
+    `if c: return a` … `return b` becomes `a if c else b`.  None when the body has any other shape."""
+    def subst(e: ast.expr, env: Dict[str, ast.expr]) -> ast.expr:
+        return _Rename(dict(env)).visit(copy.deepcopy(e)) if env else copy.deepcopy(e)
+
+    def branch_env(stmts: List[ast.stmt], env: Dict[str, ast.expr]) -> Optional[Dict[str, ast.expr]]:
+        e2 = dict(env)
+        for st in stmts:
+            if isinstance(st, ast.Pass) or (isinstance(st, ast.Expr) and isinstance(st.value, ast.Constant)):
+                continue
+            if isinstance(st, ast.Assign) and len(st.targets) == 1 and isinstance(st.targets[0], ast.Name):
+                e2[st.targets[0].id] = subst(st.value, e2)
+                continue
+            return None
+        return e2
+
+    def go(stmts: List[ast.stmt], env: Dict[str, ast.expr]) -> Optional[ast.expr]:
+        env = dict(env)
+        for i, st in enumerate(stmts):
+            if isinstance(st, ast.Expr) and isinstance(st.value, ast.Constant):
+                continue
+            if isinstance(st, ast.Assign) and len(st.targets) == 1 and isinstance(st.targets[0], ast.Name):
+                env[st.targets[0].id] = subst(st.value, env)
+                continue
+            if isinstance(st, ast.Return) and st.value is not None:
+                return subst(st.value, env)
+            if isinstance(st, ast.If) and not any(isinstance(x, ast.Return) for b in (st.body, st.orelse) for y in b for x in ast.walk(y)):
+                # branches that only assign locals: merge the environments with conditional expressions
+                ea, eb = branch_env(st.body, env), branch_env(st.orelse, env)
+                if ea is None or eb is None:
+                    return None
+                t = subst(st.test, env)
+                for k in set(ea) | set(eb):
+                    va, vb = ea.get(k, env.get(k, ast.Name(id=k, ctx=ast.Load()))), eb.get(k, env.get(k, ast.Name(id=k, ctx=ast.Load())))
+                    if ast.dump(va) != ast.dump(vb):
+                        env[k] = ast.fix_missing_locations(ast.copy_location(ast.IfExp(test=copy.deepcopy(t), body=va, orelse=vb), st))
+                continue
+            if isinstance(st, ast.If):
+                rest = stmts[i + 1:]
+                a = go(st.body + rest, env) if not _always_returns(st.body) else go(st.body, env)
+                b = go(st.orelse + rest, env) if not _always_returns(st.orelse) else go(st.orelse, env)
+                if a is None or b is None:
+                    return None
+                e = ast.IfExp(test=subst(st.test, env), body=a, orelse=b)
+                return ast.fix_missing_locations(ast.copy_location(e, st))
+            return None
+        return None
+    return go(_body(fn), {})
+
+
+def _always_returns(stmts: List[ast.stmt]) -> bool:
+    for st in stmts:
+        if isinstance(st, (ast.Return, ast.Raise)):
+            return True
+        if isinstance(st, ast.If) and _always_returns(st.body) and _always_returns(st.orelse):
+            return True
+    return False
+
+
 def flatten(repo: Repo, ci: Optional[ClassInfo], fn: ast.FunctionDef, sf: Optional[SourceFile] = None, depth: int = 3,
-            also: Iterable[str] = (), exclude: Iterable[str] = ()) -> ast.FunctionDef:
+            also: Iterable[str] = (), exclude: Iterable[str] = (), exact: bool = False) -> ast.FunctionDef:
     """Copy of `fn` with private helpers inlined (see module docstring).  Never raises: what cannot be inlined stays a call."""
     try:
-        return Inliner(repo, ci, sf, depth, also, exclude).flatten(fn)
+        return Inliner(repo, ci, sf, depth, also, exclude, exact).flatten(fn)
     except RecursionError:
         return fn
